@@ -117,7 +117,7 @@ class Registry:
     def apply_contract(self, I, spec, fi, bound):
         c = ContractCtx("call", I, fi, bound)
         spec.fn(c)
-        caller = I.frames[-1].fi.dotted if I.frames else "<top>"
+        caller = I.name_of(I.frames[-1].fi) if I.frames else "<top>"
         k = I.call_ordinal(fi)
         base = f"{caller}/call[{fi.qualname}#{k}]"
         for label, cond in c._requires:
@@ -383,7 +383,7 @@ class ContractCtx:
         self._ghost_bounds.append((counter, bound))
 
     def loop(self, k, target=None, **ann):
-        self.I.registry.loops[(target or self.fi.dotted, k)] = ann
+        self.I.local_loops[(target or self.fi.dotted, k)] = ann
 
     def replay(self, **meta):
         """Replay metadata: oracle (python source), setup (python source), stubs, budget, skip (reason)."""
